@@ -663,3 +663,122 @@ func derefInt(p *int) interface{} {
 	}
 	return *p
 }
+
+// ---------------------------------------------------------------- C07, bursts against a slow reader
+//
+// TestC07Burst: the same worlds, but the MIDI output queue has the application's capacity (8) and a reader that takes
+// 50-400 us per message, and the second half of the positions arrives back to back (no waiting for the output between
+// them). The stick moves faster than the port can talk; every message still has to get there, in order. Oracle (receiver
+// side, after the burst has drained): for every axis at most one of its two controllers is non-zero, and when the last
+// position is clearly off centre it is the controller of that side. CC-learning is left out of this part.
+type C07BurstCase struct {
+	C             AxisCase `json:"c"`
+	BurstFrom     int      `json:"burst_from"`
+	QueueCap      int      `json:"queue_cap"`
+	ReaderDelayUs int      `json:"reader_delay_us"`
+}
+
+func checkC07Burst(bc C07BurstCase) (bool, *Violation) {
+	c := bc.C
+	learnCode := uint16(0xffff)
+	for _, a := range c.D.Actions {
+		if a.Action == "cc_learning" {
+			learnCode = a.Code
+		}
+	}
+	var steps []Step
+	for _, s := range c.Steps {
+		if s.T == "key" && s.Code == learnCode {
+			continue
+		}
+		steps = append(steps, s)
+	}
+	if len(steps) == 0 {
+		return false, nil
+	}
+	from := bc.BurstFrom
+	if from > len(steps)-1 {
+		from = len(steps) - 1
+	}
+	if from < 0 {
+		from = 0
+	}
+	for i := from; i < len(steps)-1; i++ {
+		steps[i].NoFence = true
+	}
+	kc := &KeyCase{D: c.D, Steps: steps, NoLogs: !c.Logs, QueueCap: bc.QueueCap, ReaderDelayUs: bc.ReaderDelayUs}
+	w, v := doWalk("C07", kc)
+	if v != nil {
+		return false, v
+	}
+	m := &c.D.Mappings[0]
+	rx := NewReceiver()
+	base := c.D.Channel - 1
+	last := map[string]shaped{}
+	lastRaw := map[string]int32{}
+	emitted := 0
+	for i := range w.Steps {
+		ws := &w.Steps[i]
+		for _, msg := range ws.Res.Out {
+			rx.Feed(msg)
+			emitted++
+		}
+		if ws.Step.T != "abs" {
+			continue
+		}
+		a := axisByCode(m, ws.Step.Sub, ws.Step.Code)
+		if a == nil {
+			continue
+		}
+		ak := a.Sub + "|" + fmt.Sprint(a.Code)
+		last[ak] = exactShape(a, effectiveDeadzone(m, a), ws.Step.Val)
+		lastRaw[ak] = ws.Step.Val
+	}
+	for _, msg := range w.Run.Tail {
+		_ = msg // (disconnect: controllers are not reset)
+	}
+	burstLen := len(steps) - from
+	classify(fmt.Sprintf("burst of %d or more positions", burstLen/8*8))
+	for i := range m.Axes {
+		a := &m.Axes[i]
+		ak := a.Sub + "|" + fmt.Sprint(a.Code)
+		sh, ok := last[ak]
+		if !ok {
+			continue
+		}
+		off, offNeg := 0, 0
+		if a.Off != nil {
+			off = *a.Off
+		}
+		if a.OffNeg != nil {
+			offNeg = *a.OffNeg
+		}
+		pos, neg := [2]byte{byte((base + off) % 16), byte(*a.CC)}, [2]byte{byte((base + offNeg) % 16), byte(*a.CCNeg)}
+		where := fmt.Sprintf("%s CC %d/%d after a history of %d positions of which the last %d arrived back to back (output queue of %d, reader taking %d us per message; %d messages received), last raw %d (exact shaped position %.6f)",
+			axisLabel(a, effectiveDeadzone(m, a)), *a.CC, *a.CCNeg, len(steps), burstLen, bc.QueueCap, bc.ReaderDelayUs, emitted, lastRaw[ak], ratF(sh.S))
+		if rx.CC[pos] != 0 && rx.CC[neg] != 0 {
+			return true, violation("C07", "both-sides-nonzero", "burst", "%s: both controllers are non-zero at the receiver (%d and %d)", where, rx.CC[pos], rx.CC[neg])
+		}
+		var mag *big.Rat
+		side := 0
+		if sh.CanNeg {
+			mag, side = new(big.Rat).Abs(sh.S), sh.S.Sign()
+		} else {
+			t := new(big.Rat).Sub(ratMulInt(sh.S, 2), ratOne)
+			side = t.Sign()
+			mag = t.Abs(t)
+		}
+		if ratMulInt(mag, 127).Cmp(big.NewRat(3, 1)) < 0 {
+			continue // (too close to the centre to say which side must show)
+		}
+		want, other := pos, neg
+		if side < 0 {
+			want, other = neg, pos
+		}
+		if rx.CC[want] == 0 || rx.CC[other] != 0 {
+			return true, violation("C07", "wrong-side", "burst", "%s: the stick rests on the %s side, the receiver has %d there and %d on the other side",
+				where, map[int]string{1: "positive", -1: "negative"}[side], rx.CC[want], rx.CC[other])
+		}
+	}
+	return burstLen >= 8, nil
+}
